@@ -98,6 +98,12 @@ func (fc *FnCtx) execBlock(s *State, fn *ssa.Function, b *ssa.BasicBlock, i int,
 
 func (fc *FnCtx) jump(s *State, fn *ssa.Function, from, to *ssa.BasicBlock, k retK) {
 	s.prev = from
+	if fn == fc.fn {
+		// leaving a loop: its write frame no longer applies to what follows
+		for n := len(s.frames); n > 1 && s.frames[n-1].loop != nil && !s.frames[n-1].loop.blocks[to]; n = len(s.frames) {
+			s.frames = s.frames[: n-1 : n-1]
+		}
+	}
 	if n := len(s.stopAt); n > 0 && s.stopAt[n-1].b == to {
 		s.stopAt[n-1].f(s)
 		return
